@@ -135,8 +135,9 @@ class PluginGroup(Generic[T], metaclass=PluginGroupMeta):
 
         if name not in self._VERSIONS:
             self._VERSIONS[name] = []
-        self._VERSIONS[name].append(p_ref)
-        self._VERSIONS[name].sort()  # should be cheap
+        if p_ref not in self._VERSIONS[name]:  # may be re-registered by another package
+            self._VERSIONS[name].append(p_ref)
+            self._VERSIONS[name].sort()  # should be cheap
 
     def __init__(self, entrypoints: Dict[str, EntryPoint]):
         self._ENTRY_POINTS = {}
